@@ -168,6 +168,23 @@ def run_cases(res: Result, rng: random.Random, per_entry: int, n_raw: int, oracl
             if type(f) is not A2.AvpUtf8String or f.value != "x" or f.is_mandatory:
                 problems.append(f"({code},{vendor}) after re-registration as UTF8String: {type(f).__name__}")
             res.count("register")
+        # a registration concerns its own (code, vendor) pair only: the same code under every other vendor -- vendors whose
+        # table ships empty, populated ones, none at all -- is as unknown as before (and the other way round)
+        vendors = sorted(v for v in D_vendor() if v) + [5555555]
+        empties = [v for v in vendors if v in D_vendor() and not D_vendor()[v]]
+        for v1 in (empties[:3] + [10415, 5555555]):
+            code = 90000100 + (v1 % 89)
+            others = [v for v in vendors + [0] if v != v1]
+            before = {v: use(code, v, b"\x00\x00\x00\x07") for v in others}
+            A2.register(code, "X-Verif-Sibling", A2.AvpUnsigned32, vendor=v1)
+            if use(code, v1, b"\x00\x00\x00\x07") != ("AvpUnsigned32", "AvpUnsigned32", True):
+                problems.append(f"({code},{v1}) not typed after its registration")
+            changed = [v for v in others if use(code, v, b"\x00\x00\x00\x07") != before[v]]
+            if changed:
+                problems.append(f"registering ({code},{v1}) changed how the code is treated under vendor(s) {changed[:6]}")
+            D_vendor()[v1].pop(code, None)
+            res.count("register-sibling")
+        D_vendor().pop(5555555, None)
         del D_vendor()[4242424]
         del realcodec.D.AVP_DICTIONARY[90000002]
         del D_vendor()[10415][90000003]
